@@ -386,6 +386,127 @@ func c16Families(tier string) []explore.Family {
 		}
 	}})
 
+	// scaled family: long strings (lengths around 16..65536) built by repeating every string of <=2 symbols;
+	// every unary law, slice/truncate at the boundaries of the length
+	units := c16Strings(2)[1:]
+	reps := []int{8, 16, 17, 31, 32, 33, 50, 63, 64, 65, 70, 100, 127, 128, 129, 255, 256, 257, 1000, 4096, 65536}
+	scaledOps := []string{"upcase", "downcase", "capitalize", "strip", "lstrip", "rstrip", "size", "escape-roundtrip", "url-roundtrip", "append", "slice", "truncate", "truncatewords", "replace", "split-join", "print"}
+	fams = append(fams, explore.Family{Name: "scaled", Count: int64(len(units) * len(reps) * len(scaledOps)), Run: func(i int64, r *explore.Rec) {
+		rx := radix{i}
+		op, rep, unit := scaledOps[rx.next(len(scaledOps))], reps[rx.next(len(reps))], units[rx.next(len(units))]
+		if rep > 4096 && (op == "replace" || op == "split-join" || op == "slice" || op == "truncatewords") && len(unit) > 4 {
+			return
+		}
+		s := strings.Repeat(unit, rep)
+		rs := runes(s)
+		n := len(rs)
+		r.Eval()
+		r.Transition()
+		c := c16Case{r, "scaled:" + op, func() any { return map[string]any{"unit": unit, "repeat": rep, "filter": op} }}
+		b := map[string]any{"s": s}
+		switch op {
+		case "upcase":
+			c.want(c16Render("{{ s | upcase }}", b), mapRunes(s, unicode.ToUpper))
+		case "downcase":
+			c.want(c16Render("{{ s | downcase }}", b), mapRunes(s, unicode.ToLower))
+		case "capitalize":
+			c.want(c16Render("{{ s | capitalize }}", b), string(unicode.ToUpper(rs[0]))+string(rs[1:]))
+		case "strip":
+			c.want(c16Render("{{ s | strip }}", b), strings.TrimFunc(s, unicode.IsSpace))
+		case "lstrip":
+			c.want(c16Render("{{ s | lstrip }}", b), strings.TrimLeftFunc(s, unicode.IsSpace))
+		case "rstrip":
+			c.want(c16Render("{{ s | rstrip }}", b), strings.TrimRightFunc(s, unicode.IsSpace))
+		case "size":
+			c.want(c16Render("{{ s | size }}", b), strconv.Itoa(n))
+		case "escape-roundtrip":
+			o := c16Render("{{ s | escape }}", b)
+			if c.ok(o) && (strings.ContainsAny(o.Out, `<>'"`) || html.UnescapeString(o.Out) != s) {
+				r.Violation("wrong:scaled:escape", c.desc(), "escaped text that unescapes to the input", trunc80(o.Out))
+			}
+		case "url-roundtrip":
+			c.want(c16Render("{{ s | url_encode | url_decode }}", b), s)
+		case "append":
+			c.want(c16Render("{{ s | append: s | size }}|{{ s | prepend: 'x' | slice: 0 }}", b), strconv.Itoa(2*n)+"|x")
+		case "print":
+			c.want(c16Render("{{ s }}", b), s)
+		case "slice":
+			for _, st := range []int{0, 1, n / 2, n - 2, n - 1, n, n + 1, -1, -n, -n - 1} {
+				for _, ln := range []int{0, 1, 2, n / 2, n - 1, n, n + 1} {
+					start := st
+					if start < 0 {
+						start += n
+					}
+					if start < 0 || start > n {
+						continue
+					}
+					end := start + ln
+					if end > n {
+						end = n
+					}
+					r.Eval()
+					o := c16Render("{{ s | slice: i, n }}", map[string]any{"s": s, "i": st, "n": ln})
+					cc := c16Case{r, "scaled:slice", func() any { return map[string]any{"unit": unit, "repeat": rep, "start": st, "length": ln} }}
+					cc.want(o, string(rs[start:end]))
+				}
+			}
+		case "truncate":
+			for _, k := range []int{3, n / 2, n - 1, n, n + 1, 50} {
+				r.Eval()
+				o := c16Render("{{ s | truncate: n }}", map[string]any{"s": s, "n": k})
+				cc := c16Case{r, "scaled:truncate", func() any { return map[string]any{"unit": unit, "repeat": rep, "n": k} }}
+				switch {
+				case n <= k:
+					cc.want(o, s)
+				case k >= 3:
+					cc.want(o, string(rs[:k-3])+"...")
+				}
+			}
+			// the default length
+			o := c16Render("{{ s | truncate }}", b)
+			cc := c16Case{r, "scaled:truncate-default", c.desc}
+			if n <= 50 {
+				cc.want(o, s)
+			} else {
+				cc.want(o, string(rs[:47])+"...")
+			}
+		case "truncatewords":
+			ws := words(s)
+			for _, k := range []int{1, len(ws) - 1, len(ws), len(ws) + 1, 15} {
+				if k < 1 {
+					continue
+				}
+				r.Eval()
+				o := c16Render("{{ s | truncatewords: n }}", map[string]any{"s": s, "n": k})
+				cc := c16Case{r, "scaled:truncatewords", func() any { return map[string]any{"unit": unit, "repeat": rep, "n": k} }}
+				if !cc.ok(o) {
+					continue
+				}
+				if len(ws) <= k {
+					cc.want(o, s)
+				} else if !strings.HasSuffix(o.Out, "...") || strings.Join(words(strings.TrimSuffix(o.Out, "...")), " ") != strings.Join(ws[:k], " ") {
+					r.Violation("wrong:scaled:truncatewords", cc.desc(), "first n words + ellipsis", trunc80(o.Out))
+				}
+			}
+		case "replace":
+			old := string(rs[:1])
+			c.want(c16Render("{{ s | replace: o, 'X' }}|{{ s | replace_first: o, 'X' }}|{{ s | remove: o | size }}", map[string]any{"s": s, "o": old}),
+				refReplace(s, old, "X", true)+"|"+refReplace(s, old, "X", false)+"|"+strconv.Itoa(len(runes(refReplace(s, old, "", true)))))
+		case "split-join":
+			sep := string(rs[:1])
+			if sep == " " {
+				return
+			}
+			pieces := strings.Split(s, sep)
+			for len(pieces) > 0 && pieces[len(pieces)-1] == "" {
+				pieces = pieces[:len(pieces)-1]
+			}
+			c.want(c16Render("{{ s | split: sep | size }}", map[string]any{"s": s, "sep": sep}), strconv.Itoa(len(pieces)))
+		}
+		r.Class("scaled/" + op)
+		r.State("scaled:" + op)
+	}})
+
 	// non-string receivers are first converted to the text they print as
 	recv := []struct {
 		name string
@@ -436,7 +557,7 @@ func init() {
 		Level: "model_checking",
 		Rule: "all strings of length <=3 (quick) / <=4 (thorough) over the 12-symbol alphabet {a B space newline é 😀 < & \" ' % +} as receivers of every string filter; " +
 			"integer parameters over -3..12 (both parameters of slice over the square); string parameters over all strings of length <=1 (quick) / <=2; replace family over all non-empty patterns of length <=2; " +
-			"oracle = rune-based reference functions and the laws listed in the statement; class = (filter, case kind); state = filter; transition = one filter application",
+			"a scaled family repeats every string of <=2 symbols 8..65536 times (21 lengths around powers of two, 50, 70) through 16 operations with slice/truncate at the boundaries of the length; oracle = rune-based reference functions and the laws listed in the statement; class = (filter, case kind); state = filter; transition = one filter application",
 		Assumptions: []string{
 			"left unspecified (no-error and UTF-8 validity still checked): truncate with n smaller than the ellipsis, truncatewords with n < 1, slice with an out-of-range start or negative length (must yield a substring of at most n characters), empty search pattern",
 			"reference case mapping is per-rune unicode.ToUpper/ToLower",
